@@ -7,7 +7,7 @@ import os
 import vlib
 
 TOGGLES = ["FixRcvErrRelease"]
-FAULTS = ["finish", "fail", "abrupt", "reset", "half", "garbage", "junk", "oversized"]
+FAULTS = ["finish", "fail", "refuse", "abrupt", "reset", "half", "garbage", "junk", "oversized"]
 TRANSPORTS = ["tcp", "tls", "ws"]
 MOMENTS = ["idle", "midsend", "repeat"]
 MONITOR_CFG = ("SPECIFICATION Spec\nCONSTANTS\n  TraceFile = \"@TRACE@\"\n"
@@ -35,6 +35,8 @@ def run(tier, scratch, drv, only_cases=None):
             for tr in TRANSPORTS:
                 for f in FAULTS:
                     if tr == "ws" and f == "oversized":
+                        continue
+                    if f == "refuse" and tr != "tcp":
                         continue   # the websocket transport has no read limit: a large envelope is no fault there
                     for m in MOMENTS:
                         cases.append({"n": len(cases) + 1, "cfg": {"transport": tr, "fault": f, "moment": m,
